@@ -73,8 +73,8 @@ def peek (c : Cursor) : Option Nat := c.head?
 def read_exact (c : Cursor) (count : Nat) : P (List Nat × Cursor) :=
   if count ≤ c.length then .ok (c.take count, c.drop count) else .err
 
-/-- big-endian unsigned value of a byte list -/
-def beNat (bs : List Nat) : Nat := bs.foldl (fun a b => a * 256 + b) 0
+/-- big-endian unsigned value of a byte list (list elements are bytes: taken modulo 256) -/
+def beNat (bs : List Nat) : Nat := bs.foldl (fun a b => a * 256 + b % 256) 0
 
 def read_be_u32 (c : Cursor) : P (Nat × Cursor) :=
   match read_exact c 4 with
@@ -166,13 +166,15 @@ def parse_hhmmss (c : Cursor) : P ((Int × Int × Int) × Cursor) := do
     else .ok ((hour, minute, 0), c4)
   else .ok ((hour, 0, 0), c2)
 
+/-- the optional sign in front of `hh[:mm[:ss]]` -/
+def parse_sign (c : Cursor) : P (Int × Cursor) :=
+  match peek c with
+  | some 43 => (read_exact c 1) >>= fun (_, c') => .ok (1, c')
+  | some 45 => (read_exact c 1) >>= fun (_, c') => .ok (-1, c')
+  | _ => .ok (1, c)
+
 def parse_signed_hhmmss (c : Cursor) : P ((Int × Int × Int × Int) × Cursor) :=
-  let sc : P (Int × Cursor) :=
-    match peek c with
-    | some 43 => (read_exact c 1) >>= fun (_, c') => .ok (1, c')
-    | some 45 => (read_exact c 1) >>= fun (_, c') => .ok (-1, c')
-    | _ => .ok (1, c)
-  sc >>= fun (sign, c1) =>
+  parse_sign c >>= fun (sign, c1) =>
   parse_hhmmss c1 >>= fun ((h, m, s), c2) => .ok ((sign, h, m, s), c2)
 
 def parse_offset (c : Cursor) : P (Int × Cursor) :=
@@ -206,28 +208,27 @@ def RuleDay.month_weekday (month week week_day : Int) : P RuleDay :=
   else if week_day > WEEKDAY_MAX then .err
   else .ok (.mwd month.toNat week.toNat week_day.toNat)
 
+/-- the date part of `RuleDay::parse` -/
+def RuleDay.parse_date (c : Cursor) : P (RuleDay × Cursor) :=
+  match peek c with
+  | some 77 =>    -- 'M'
+    read_exact c 1 >>= fun (_, c1) =>
+    read_int c1 U8MAXN >>= fun (month, c2) =>
+    read_tag c2 [46] >>= fun c3 =>
+    read_int c3 U8MAXN >>= fun (week, c4) =>
+    read_tag c4 [46] >>= fun c5 =>
+    read_int c5 U8MAXN >>= fun (week_day, c6) =>
+    RuleDay.month_weekday month week week_day >>= fun d => .ok (d, c6)
+  | some 74 =>    -- 'J'
+    read_exact c 1 >>= fun (_, c1) =>
+    read_int c1 U16MAXN >>= fun (n, c2) =>
+    RuleDay.julian_1 n >>= fun d => .ok (d, c2)
+  | _ =>
+    read_int c U16MAXN >>= fun (n, c1) =>
+    RuleDay.julian_0 n >>= fun d => .ok (d, c1)
+
 def RuleDay.parse (c : Cursor) (use_string_extensions : Bool) : P ((RuleDay × Int) × Cursor) :=
-  let dc : P (RuleDay × Cursor) :=
-    match peek c with
-    | some 77 => do   -- 'M'
-      let (_, c1) ← read_exact c 1
-      let (month, c2) ← read_int c1 U8MAXN
-      let c3 ← read_tag c2 [46]
-      let (week, c4) ← read_int c3 U8MAXN
-      let c5 ← read_tag c4 [46]
-      let (week_day, c6) ← read_int c5 U8MAXN
-      let d ← RuleDay.month_weekday month week week_day
-      .ok (d, c6)
-    | some 74 => do   -- 'J'
-      let (_, c1) ← read_exact c 1
-      let (n, c2) ← read_int c1 U16MAXN
-      let d ← RuleDay.julian_1 n
-      .ok (d, c2)
-    | _ => do
-      let (n, c1) ← read_int c U16MAXN
-      let d ← RuleDay.julian_0 n
-      .ok (d, c1)
-  dc >>= fun (date, c1) =>
+  RuleDay.parse_date c >>= fun (date, c1) =>
   read_optional_tag c1 [47] >>= fun (slash, c2) =>
   match slash, use_string_extensions with
   | false, _ => .ok ((date, DEFAULT_RULE_TIME), c2)
@@ -242,6 +243,13 @@ def Alt.new (std dst : Ltt) (dst_start : RuleDay) (dst_start_time : Int) (dst_en
   if !(decide (iabs dst_start_time < SECONDS_PER_WEEK) && decide (iabs dst_end_time < SECONDS_PER_WEEK)) then .err
   else .ok ⟨std, dst, dst_start, dst_start_time, dst_end, dst_end_time⟩
 
+/-- the `dst_offset` match of `from_tz_string` -/
+def parse_dst_offset (std_offset : Int) (c3 : Cursor) : P (Int × Cursor) :=
+  match peek c3 with
+  | some 44 => ck32 (std_offset - DEFAULT_DST_DELTA) >>= fun o => .ok (o, c3)
+  | some _ => parse_offset c3
+  | none => .err
+
 /-- `TransitionRule::from_tz_string` -/
 def from_tz_string (tz_string : List Nat) (use_string_extensions : Bool) : P Rule :=
   parse_name tz_string >>= fun (std_time_zone, c1) =>
@@ -250,10 +258,7 @@ def from_tz_string (tz_string : List Nat) (use_string_extensions : Bool) : P Rul
     ck32 (-std_offset) >>= fun o => Ltt.new o false (some std_time_zone) >>= fun t => .ok (.fixed t)
   else
   parse_name c2 >>= fun (dst_time_zone, c3) =>
-  (match peek c3 with
-    | some 44 => ck32 (std_offset - DEFAULT_DST_DELTA) >>= fun o => (.ok (o, c3) : P (Int × Cursor))
-    | some _ => parse_offset c3
-    | none => .err) >>= fun (dst_offset, c4) =>
+  parse_dst_offset std_offset c3 >>= fun (dst_offset, c4) =>
   if c4.isEmpty then .err else
   read_tag c4 [44] >>= fun c5 =>
   RuleDay.parse c5 use_string_extensions >>= fun ((dst_start, dst_start_time), c6) =>
@@ -299,20 +304,23 @@ def mwdDay (day_in_month : Int) (week week_day wd1 : Int) : Int :=
   let md := first + (week - 1) * DAYS_PER_WEEK
   if md > day_in_month then md - DAYS_PER_WEEK else md
 
+/-- the `Julian1WithoutLeap` arm of `transition_date` -/
+def julian1Date (year_day : Int) : P (Nat × Int) :=
+  let month := bsearchUpper CUMUL_DAY_IN_MONTHS_NORMAL_YEAR (year_day - 1)
+  if month = 0 then .panic
+  else idxI CUMUL_DAY_IN_MONTHS_NORMAL_YEAR (month - 1) >>= fun cum => .ok (month, year_day - cum)
+
+/-- the `Julian0WithLeap` arm of `transition_date` (`leap` = 0 or 1) -/
+def julian0Date (leap : Int) (year_day : Int) : P (Nat × Int) :=
+  let month := bsearchUpper (cumulLeap leap) year_day
+  if month = 0 then .panic
+  else idxI (cumulLeap leap) (month - 1) >>= fun cum => .ok (month, 1 + year_day - cum)
+
 /-- `RuleDay::transition_date(year)` → `(month, month_day)` -/
 def RuleDay.transition_date (d : RuleDay) (year : Int) : P (Nat × Int) :=
   match d with
-  | .julian1 yd =>
-    let year_day : Int := yd
-    let month := bsearchUpper CUMUL_DAY_IN_MONTHS_NORMAL_YEAR (year_day - 1)
-    if month = 0 then .panic
-    else idxI CUMUL_DAY_IN_MONTHS_NORMAL_YEAR (month - 1) >>= fun cum => .ok (month, year_day - cum)
-  | .julian0 yd =>
-    let leap : Int := if is_leap_year year then 1 else 0
-    let year_day : Int := yd
-    let month := bsearchUpper (cumulLeap leap) year_day
-    if month = 0 then .panic
-    else idxI (cumulLeap leap) (month - 1) >>= fun cum => .ok (month, 1 + year_day - cum)
+  | .julian1 yd => julian1Date yd
+  | .julian0 yd => julian0Date (if is_leap_year year then 1 else 0) yd
   | .mwd rule_month week week_day =>
     let leap : Int := if is_leap_year year then 1 else 0
     let month := rule_month
